@@ -19,7 +19,7 @@ var plans = map[string]plan{
 		Quick:    []phase{{Scen: "C01", Seeds: 6000, Batch: 250}},
 		Thorough: []phase{{Scen: "C01", Seeds: 300000, Batch: 1000}},
 		Rule:     "seeded: one publisher (chain 1..12 ads, 0..8 entry chunks per ad, small link trees), one subscriber with drawn AdsDepthLimit/EntriesDepthLimit/FirstSyncDepth/SegmentDepthLimit, 1..5 sync calls (SyncAdChain with queried/explicit head, stop CID on/off/equal-to-head/off-chain, resync, scoped depth and segment limits; SyncEntries; SyncOneEntry; SyncHAMTEntries) interleaved with chain extension, random pre-stored subsets and SetLatestSync; discovery vs plain HTTP, dead addresses first, TLS, handler paths, retryable client, chunked/delayed delivery. A run is non-trivial when at least one call reported >= 2 blocks; distinct = distinct (fault set, canonical log hash)",
-		Real:     []string{"dagsync.Subscriber", "ipnisync.Sync/Syncer", "ipnisync.Publisher (as http.Handler)", "go-ipld-prime traversal/selectors/dag-json", "net/http client transport", "libp2p-HTTP discovery client", "retryablehttp"},
+		Real:     []string{"dagsync.Subscriber", "ipnisync.Sync/Syncer", "ipnisync.Publisher (as http.Handler)", "go-ipld-prime traversal/selectors/dag-json", "net/http client transport", "libp2p-HTTP discovery client", "retryablehttp", "C04S: libp2phttp server and client over libp2p streams (go-libp2p mocknet hosts)"},
 		Stubs:    []string{"TCP/TLS (net.Pipe, no handshake)", "HTTP server loop (http.ReadRequest + recorder)", "block stores (in-memory)", "wall clock (testing/synctest)", "libp2p stream transport (absent)"},
 		Assume:   commonAssume,
 	},
@@ -34,18 +34,18 @@ var plans = map[string]plan{
 	},
 	"C03": {
 		Property: "C03", Level: "fault_enumeration",
-		Quick:    []phase{{Scen: "C03", Enum: true, Seeds: 3000, Batch: 250}},
-		Thorough: []phase{{Scen: "C03", Enum: true, Seeds: 200000, Batch: 1000}},
-		Rule:     "enumerated: 4 libp2p key types (Ed25519, RSA-2048, ECDSA, secp256k1) x topic set/unset x libp2p-HTTP discovery/plain HTTP x direct Syncer.GetHead / Subscriber.SyncAdChain, the head response altered in transit by a bit flip at 150 evenly spread (quick) or every (thorough, bit rotating) byte position and by 18 field-level alterations (CID, topic, key, signature swapped with those of other valid heads; re-signed by another identity; stale but valid head; missing/empty fields; trailing bytes); seeded: random byte positions, other key type for the second identity. Expected verdict from an independent decode (ipld-prime generic dag-json, go-cid, libp2p crypto): accepted only if validly signed by the publisher being synced. Every run is non-trivial (one alteration fired); distinct = distinct (fault set, canonical log hash)",
+		Quick:    []phase{{Scen: "C03", Enum: true, Seeds: 3000, Batch: 250}, {Scen: "C03R", Seeds: 3000, Batch: 250}},
+		Thorough: []phase{{Scen: "C03", Enum: true, Seeds: 200000, Batch: 1000}, {Scen: "C03R", Seeds: 200000, Batch: 1000}},
+		Rule:     "C03R: the publisher signs heads with a key whose Sign is a scheduling point; 2..4 overlapping head queries by the real client and 1..3 SetRoot calls placed by the scheduler, preferably inside a signing step; every head served verifies independently as signed by the publisher over the CID it carries, names a root the publisher had, and the client's result is a root of the query's lifetime. C03: enumerated: 4 libp2p key types (Ed25519, RSA-2048, ECDSA, secp256k1) x topic set/unset x libp2p-HTTP discovery/plain HTTP x direct Syncer.GetHead / Subscriber.SyncAdChain, the head response altered in transit by a bit flip at 150 evenly spread (quick) or every (thorough, bit rotating) byte position and by 18 field-level alterations (CID, topic, key, signature swapped with those of other valid heads; re-signed by another identity; stale but valid head; missing/empty fields; trailing bytes); seeded: random byte positions, other key type for the second identity. Expected verdict from an independent decode (ipld-prime generic dag-json, go-cid, libp2p crypto): accepted only if validly signed by the publisher being synced. Every run is non-trivial (one alteration fired); distinct = distinct (fault set, canonical log hash)",
 		Real:     []string{"ipnisync head.SignedHead decode/validate", "ipnisync.Syncer.GetHead", "dagsync.Subscriber.SyncAdChain", "ipnisync.Publisher (signs the head)", "libp2p crypto", "net/http client transport", "libp2p-HTTP discovery client"},
 		Stubs:    []string{"TCP/TLS (net.Pipe)", "HTTP server loop", "block stores", "wall clock (testing/synctest)"},
 		Assume:   append([]string{"RSA/ECDSA/secp256k1 identities come from a committed key ring; the harness wraps ECDSA keys so that they sign deterministically (RFC 6979) instead of drawing nonces from crypto/rand - verification code is untouched"}, commonAssume...),
 	},
 	"C04": {
 		Property: "C04", Level: "fault_enumeration",
-		Quick:    []phase{{Scen: "C04", Enum: true, Seeds: 6000, Batch: 250}},
-		Thorough: []phase{{Scen: "C04", Enum: true, Seeds: 400000, Batch: 1000}},
-		Rule:     "enumerated: every single fault of 23 kinds (HTTP 404/403/400/429/500/503, reset before/mid response, truncated and short bodies, bit flip, empty, substituted and extended bodies, stall, long delay, context cancellation, hook-signalled failure, store open/write/commit errors and lost commit, refused dial) at every request/block/store-op index 0..7 of a 3-ad sync, for explicit and announce-triggered syncs x libp2p-HTTP discovery and plain HTTP x segmented and unsegmented; seeded: 1..5 faults of random kind and position, chains 3..8, retryable client, two live addresses, dead first address, random pre-synced prefix. After the faulty attempt the network heals and the same head is synced again through the same subscriber. A run is non-trivial when a fault fired; distinct = distinct (fault set, canonical log hash)",
+		Quick:    []phase{{Scen: "C04", Enum: true, Seeds: 6000, Batch: 250}, {Scen: "C04S", Seeds: 2000, Batch: 100}},
+		Thorough: []phase{{Scen: "C04", Enum: true, Seeds: 400000, Batch: 1000}, {Scen: "C04S", Seeds: 100000, Batch: 500}},
+		Rule:     "C04S: the same oracles over libp2p streams - publisher (real ipnisync.Publisher with a stream host, libp2phttp) and subscriber on two hosts of an in-memory mocknet; chain 3..8 with a pre-synced prefix; one fault per run placed at a drawn block, either while the publisher is reading that block for a request in flight (a scheduling point in its store) or between two requests: all connections closed (streams reset), or the link taken down as well; then heal and retry through the same subscriber. C04 enumerated: every single fault of 23 kinds (HTTP 404/403/400/429/500/503, reset before/mid response, truncated and short bodies, bit flip, empty, substituted and extended bodies, stall, long delay, context cancellation, hook-signalled failure, store open/write/commit errors and lost commit, refused dial) at every request/block/store-op index 0..7 of a 3-ad sync, for explicit and announce-triggered syncs x libp2p-HTTP discovery and plain HTTP x segmented and unsegmented; seeded: 1..5 faults of random kind and position, chains 3..8, retryable client, two live addresses, dead first address, random pre-synced prefix. After the faulty attempt the network heals and the same head is synced again through the same subscriber. A run is non-trivial when a fault fired; distinct = distinct (fault set, canonical log hash)",
 		Real:     []string{"dagsync.Subscriber", "announce.Receiver (direct announcements)", "ipnisync.Sync/Syncer", "ipnisync.Publisher", "go-ipld-prime traversal", "net/http client transport", "libp2p-HTTP discovery client", "retryablehttp"},
 		Stubs:    []string{"TCP/TLS (net.Pipe)", "HTTP server loop", "block stores (in-memory, fault points)", "wall clock (testing/synctest)", "gossip pubsub (absent: announcements are direct)", "libp2p stream transport (absent)"},
 		Assume:   commonAssume,
@@ -61,8 +61,8 @@ var plans = map[string]plan{
 	},
 	"C07": {
 		Property: "C07", Level: "exploration",
-		Quick:    []phase{{Scen: "C07", Seeds: 12000, Batch: 500}},
-		Thorough: []phase{{Scen: "C07", Seeds: 1200000, Batch: 5000}, {Scen: "C07R", Seeds: 20000, Batch: 500, Race: true}},
+		Quick:    []phase{{Scen: "C07", Seeds: 12000, Batch: 500}, {Scen: "C07H", Seeds: 5000, Batch: 250}},
+		Thorough: []phase{{Scen: "C07", Seeds: 1200000, Batch: 5000}, {Scen: "C07H", Seeds: 300000, Batch: 2500}, {Scen: "C07R", Seeds: 20000, Batch: 500, Race: true}},
 		Rule:     "seeded: 2..4 reader tasks (Get, List) and 1..2 writer tasks (Refresh, missing Get) running concurrently over 1..3 gated sources; the scheduler holds an update open at every source call and at the yield point before each snapshot publication while readers run; clock jumps across TTL and refresh interval with readers calling at once; advertisement times grow monotonically. Oracles: a read of cached data returns in the step it was called in; every read equals the reference model as of the last publication (no missing provider, no half-built listing); no reader goes back in time. Thorough adds real-thread parallel windows under the race detector. Non-trivial when two actions were simultaneously enabled; distinct = distinct (schedule hash, canonical log hash)",
 		Real:     []string{"pcache.ProviderCache"},
 		Stubs:    []string{"provider sources (in-process, gated)", "wall clock (testing/synctest)"},
